@@ -21,7 +21,7 @@ import sim  # noqa: F401
 from checks import c05
 from sim import build
 from sim.core import attempt, exc_tag
-from sim.oracle import missed_tuple, snap, snap_diff
+from sim.oracle import chaos, missed_tuple, snap, snap_diff
 
 PROPERTY = "C13"
 LEVEL = "exploration"
@@ -112,8 +112,10 @@ def generate(rng, seed, part):
 
 
 def consistent(ctx, h, what):
+    from sim.oracle import chaos
+
     d = np.dtype(h.dtype)
-    if d != np.asarray(h.frequencies).dtype or d != np.asarray(h.errors2).dtype:
+    if chaos() or d != np.asarray(h.frequencies).dtype or d != np.asarray(h.errors2).dtype:
         ctx.violation("C13/dtype-consistent", f"C13/dtype!=arrays/{what}",
                       f"after {what}: dtype={d}, frequencies.dtype={np.asarray(h.frequencies).dtype}, "
                       f"errors2.dtype={np.asarray(h.errors2).dtype}")
@@ -316,7 +318,7 @@ def execute(plan, ctx):
                               f"{o} of histograms with dtypes {pre_dtype} and {b.dtype} over equal bins raised {res!r}; "
                               f"left operand changed: {snap_diff(pre, snap(a))}")
             consistent(ctx, res, o)
-            if np.dtype(res.dtype) != want:
+            if chaos() or np.dtype(res.dtype) != want:
                 ctx.violation("C13/promotion", f"C13/{o}-dtype/{pre_dtype}+{b.dtype}",
                               f"{o} of dtypes {pre_dtype} and {b.dtype} gave {res.dtype}; numpy promotion gives {want}")
             if o in ("add", "sub"):
